@@ -14,7 +14,10 @@ import (
 	authtypes "github.com/cosmos/cosmos-sdk/x/auth/types"
 	"github.com/cosmos/gogoproto/proto"
 
+	"github.com/osmosis-labs/osmosis/osmomath"
 	"github.com/osmosis-labs/osmosis/v31/app"
+	clmodel "github.com/osmosis-labs/osmosis/v31/x/concentrated-liquidity/model"
+	cltypes "github.com/osmosis-labs/osmosis/v31/x/concentrated-liquidity/types"
 	lockupkeeper "github.com/osmosis-labs/osmosis/v31/x/lockup/keeper"
 	lockuptypes "github.com/osmosis-labs/osmosis/v31/x/lockup/types"
 
@@ -30,6 +33,19 @@ const (
 )
 
 var Denoms = []string{DenomX, DenomY}
+
+// DenomCL is the share denom of the world's one concentrated-liquidity pool. A lock of it is created by the
+// concentrated-liquidity keeper for a locked full-range position (the shares are minted straight into the lock) and
+// its coins are BURNT, not returned, when the lock is paid out (x/lockup unlockMaturedLockInternalLogic). Only the
+// `clshare` seed creates one; the ledger then widens every per-denom lattice by this denom.
+const DenomCL = "cl/pool/1"
+
+func denomsOf(l *Ledger) []string {
+	if l.CL {
+		return []string{DenomX, DenomY, DenomCL}
+	}
+	return Denoms
+}
 
 // The duration alphabet.
 var Durations = []time.Duration{time.Hour, 2 * time.Hour, 24 * time.Hour}
@@ -59,6 +75,8 @@ func (o Op) String() string {
 	switch o.K {
 	case "lock":
 		return fmt.Sprintf("lock{%s %d%s %s}", o.A, o.Amt, o.Denom, time.Duration(o.Dur))
+	case "cllock":
+		return fmt.Sprintf("cllock{%s %d eth+uosmo full range, %s}", o.A, o.Amt, time.Duration(o.Dur))
 	case "unlock":
 		return fmt.Sprintf("unlock{id=%d}", o.ID)
 	case "punlock":
@@ -98,6 +116,7 @@ type Ledger struct {
 	Now    time.Time
 	Height int64
 	MaxID  uint64 // largest id ever reported by a response
+	CL     bool   // a lock of DenomCL has existed in this history
 }
 
 func (l *Ledger) Clone() *Ledger {
@@ -139,6 +158,9 @@ func (l *Ledger) Key() []byte {
 	put(uint64(l.Now.UnixNano()))
 	put(uint64(l.Height))
 	put(l.MaxID)
+	if l.CL {
+		h.Write([]byte("cl"))
+	}
 	for _, k := range l.Locks {
 		put(k.ID)
 		h.Write([]byte(k.Owner + "|" + k.Denom + "|" + k.Recv + "|"))
@@ -178,9 +200,23 @@ type World struct {
 }
 
 func NewWorld(vac map[string]int64) *World {
-	fund := core.Coins(DenomX, InitialFunds, DenomY, InitialFunds, "uosmo", 1000000000)
+	fund := core.Coins(DenomX, InitialFunds, DenomY, InitialFunds, "uosmo", 1000000000, "eth", 1000000000)
 	env := core.NewEnv(core.GenesisOpts{Balances: map[string]sdk.Coins{"A": fund, "B": fund, "C": fund}})
 	w := &World{Env: env, App: env.App, Vac: vac}
+	// one concentrated-liquidity pool (eth/uosmo) so that the `clshare` seed can lock a full-range position
+	cp := cltypes.DefaultParams()
+	cp.IsPermissionlessPoolCreationEnabled = true
+	env.App.ConcentratedLiquidityKeeper.SetParams(env.Ctx, cp)
+	cm := clmodel.NewMsgCreateConcentratedPool(core.Acc("C"), "eth", "uosmo", 100, osmomath.MustNewDecFromStr("0.003"))
+	if r := core.Deliver(env.App, env.Ctx, &cm); !r.OK() {
+		panic(fmt.Sprintf("harness: concentrated pool creation failed: %v", r.Err))
+	} else {
+		var resp clmodel.MsgCreateConcentratedPoolResponse
+		mustUnmarshal(r.Res, &resp)
+		if fmt.Sprintf("cl/pool/%d", resp.PoolID) != DenomCL {
+			panic("harness: unexpected pool id")
+		}
+	}
 	w.Q = lockupkeeper.NewQuerier(*env.App.LockupKeeper)
 	w.ModAddr = authtypes.NewModuleAddress(lockuptypes.ModuleName)
 	w.LockupKey = env.App.GetKVStoreKey()[lockuptypes.StoreKey]
@@ -249,7 +285,10 @@ func (w *World) snapshot(ctx sdk.Context) balances {
 // delta returns after-before restricted to the scenario's two denoms, as signed amounts.
 func delta(before, after sdk.Coins) map[string]int64 {
 	d := map[string]int64{}
-	for _, dn := range Denoms {
+	for _, dn := range []string{DenomX, DenomY, DenomCL} {
+		if dn == DenomCL && after.AmountOf(dn).IsZero() && before.AmountOf(dn).IsZero() {
+			continue
+		}
 		d[dn] = after.AmountOf(dn).Sub(before.AmountOf(dn)).Int64()
 	}
 	return d
@@ -294,6 +333,27 @@ func (w *World) Apply(ctx sdk.Context, l *Ledger, op Op, fail func(a, s, d strin
 		w.modelLock(l, op, resp.ID, fail)
 		expAcc[op.A][op.Denom] -= op.Amt
 		expMod[op.Denom] += op.Amt
+	case "cllock":
+		// seed only: a locked full-range position, created the way superfluid migration / the CL message server do it
+		var id uint64
+		var liq osmomath.Dec
+		err := core.Try(func() error {
+			pd, lid, e := a.ConcentratedLiquidityKeeper.CreateFullRangePositionLocked(ctx, 1, core.Acc(op.A), sdk.NewCoins(sdk.NewInt64Coin("eth", op.Amt), sdk.NewInt64Coin("uosmo", op.Amt)), time.Duration(op.Dur))
+			id, liq = lid, pd.Liquidity
+			return e
+		})
+		if err != nil {
+			outcome = errClass(err)
+			break
+		}
+		amt := liq.TruncateInt().Int64()
+		if id <= l.MaxID {
+			fail("lock.id-not-fresh", "", fmt.Sprintf("request %s answered with id %d which was used before (max id seen %d)", op, id, l.MaxID))
+		}
+		l.insert(Lock{ID: id, Owner: op.A, Dur: time.Duration(op.Dur), Denom: DenomCL, Amt: amt})
+		l.CL = true
+		expMod[DenomCL] += amt
+		w.Vac["cl_share_lock_created"]++
 	case "unlock", "punlock", "xunlock":
 		i := l.find(op.ID)
 		sender := op.A
@@ -462,7 +522,11 @@ func (w *World) Apply(ctx sdk.Context, l *Ledger, op Op, fail func(a, s, d strin
 		case releaseClock.Before(k.End):
 			fail("release.before-end-time", "", fmt.Sprintf("lock %d (%s %d%s %s) released during %s at model time %s, before unlock start + duration = %s", k.ID, k.Owner, k.Amt, k.Denom, k.Dur, op, releaseClock.Format(time.RFC3339Nano), k.End.Format(time.RFC3339Nano)))
 		}
-		expAcc[k.Owner][k.Denom] += k.Amt
+		if k.Denom != DenomCL { // concentrated-liquidity shares are burnt from the module account, not returned
+			expAcc[k.Owner][k.Denom] += k.Amt
+		} else {
+			w.Vac["cl_share_lock_paid_out"]++
+		}
 		expMod[k.Denom] -= k.Amt
 		l.remove(k.ID)
 	}
@@ -488,7 +552,7 @@ func (w *World) Apply(ctx sdk.Context, l *Ledger, op Op, fail func(a, s, d strin
 	after := w.snapshot(ctx)
 	for _, o := range Owners {
 		got := delta(before.acc[o], after.acc[o])
-		for _, dn := range Denoms {
+		for _, dn := range denomsOf(l) {
 			if got[dn] != expAcc[o][dn] {
 				fail("transfer.owner-balance-delta", "", fmt.Sprintf("during %s the balance of %s moved by %s, the request and the observed releases account for %s", op, o, fmtDelta(got), fmtDelta(expAcc[o])))
 				break
@@ -496,7 +560,7 @@ func (w *World) Apply(ctx sdk.Context, l *Ledger, op Op, fail func(a, s, d strin
 		}
 	}
 	gotMod := delta(before.mod, after.mod)
-	for _, dn := range Denoms {
+	for _, dn := range denomsOf(l) {
 		if gotMod[dn] != expMod[dn] {
 			fail("transfer.module-balance-delta", "", fmt.Sprintf("during %s the module account moved by %s, the request and the observed releases account for %s", op, fmtDelta(gotMod), fmtDelta(expMod)))
 			break
